@@ -711,4 +711,40 @@ example : ∃ F, OperandF F 1 [ia, plus, ib, plus, ia, plus, ib]
   exact h
 end Checks
 
+/-! ## A projection token binds tighter than every binary operator: `A []` -/
+
+/-- with nothing selector-like ahead, the right-hand side of a projection is empty -/
+theorem projection_none {f prec : Nat} {s : PState} (h : precedence s.curr.type ≤ 7) :
+    projection (f + 1) prec s = .ok (none, s) := by
+  rw [projection.eq_2, bind_ok (get_run _)]
+  cases ht : s.curr.type <;> rw [ht] at h <;> simp [precedence] at h <;> rfl
+
+theorem exprLoop_flatten {f : Nat} {n : INode} {p : Nat} {s : PState} (hd : s.curr.type = .flatten)
+    (hp : p < precedence .flatten) :
+    exprLoop (f+1) n p s =
+      (advance >>= fun _ => projection f projectionPrecedence >>= fun right =>
+        exprLoop f (match right with | none => .flatten n | some r => .flattenAndProject n r) p) s := by
+  rw [exprLoop.eq_2, bind_ok (currType_run s)]
+  have hn : ¬ precedence s.curr.type ≤ p := by rw [hd]; omega
+  simp only [hn, if_false]
+  generalize s.curr.type = t at *
+  subst hd
+  rfl
+
+/-- `A []` (flatten, nothing selector-like following) is an operand at every power below that of `[]` -/
+theorem operand_flatten {t : Token} (ht : t.type = .flatten) {fA p : Nat} {A : List Token} {a : INode}
+    (hp : p < precedence .flatten) (hA : OperandF fA (precedence .flatten) A a) :
+    OperandF (fA + 2) p (A ++ [t]) (.flatten a) := by
+  intro rest hr
+  rw [List.append_assoc, List.singleton_append]
+  apply operand_lower hA (Nat.le_of_lt hp) ⟨by simp [ht], by simp [ht]⟩
+  have h7 : precedence (stOf rest).curr.type ≤ 7 := by
+    have := hr.1; simp only [precedence] at hp; omega
+  rw [exprLoop_flatten (s := stOf (t :: rest)) ht hp, bind_ok (advance_stOf _ _), bind_ok (projection_none h7)]
+  exact exprLoop_stop hr.1
+
+example : OperandF 5 6 [⟨.unquotedIdentifier, [0x62]⟩, ⟨.flatten, [0x5B, 0x5D]⟩] (.flatten (.field [0x62])) :=
+  operand_flatten (t := ⟨.flatten, [0x5B, 0x5D]⟩) (A := [⟨.unquotedIdentifier, [0x62]⟩]) rfl (by decide)
+    (operand_ident (t := ⟨.unquotedIdentifier, [0x62]⟩) rfl _)
+
 end Jmes.Pratt
